@@ -611,3 +611,172 @@ Qed.
 
 End Preferred.
 End Component.
+
+(* ------------------------------------------------------------------------------------------ *)
+(** * One connected component, ideal semantics: two phases on one session *)
+
+(* phase 1 enumerates preferred extensions (a preferred computer), phase 2 - only when the
+   intersection of the preferred extensions is neither the grounded extension nor the single
+   preferred extension - grows a chain of sets inside that intersection (a second computer, ideal
+   flavour, on the same session).  Within EACH phase no set is returned twice; a set may be
+   returned once in each phase. *)
+Definition ideal_two_phases (e : enc) (F : af) (n : nat) (new : list (nat * event)) : Prop :=
+  exists new1 new2, new = new2 ++ new1 /\
+    (sat_no_twice e F n new1 /\ unsat_le_pr F new1) /\ sat_no_twice e F n new2.
+
+Section IdealComponent.
+Variable oracle : nat -> cnf -> list lit -> answer.
+Variable thr : nat.
+Hypothesis Hthr : 1 <= thr.
+Hypothesis Hvalid : valid_oracle oracle.
+Variable e : enc.
+Variable F : af.
+Variable n : nat.
+Hypothesis HF : compact_af F n.
+Hypothesis Hpe : pr_enc e.
+Hypothesis Hgr : gr_least F.
+
+Notation base := (basep (enc_base e) F).
+Notation g0 := (grounded (view_of_af F)).
+Notation PRF := (fun new => sat_no_twice e F n new /\ unsat_le_pr F new).
+Notation SAT := (sat_no_twice e F n).
+Notation ID2 := (ideal_two_phases e F n).
+
+Let Hwf : wf F := compact_wf F n HF.
+Let Hgrs : gr_start F := gr_least_start F Hgr.
+Let Hgrco : co F g0 := proj1 (proj1 Hgr).
+Let Hgr0 : cand e F (fun _ => true) (gr0 F).
+Proof. split; [apply (co_base e F Hpe), Hgrco|intros a _; reflexivity]. Qed.
+
+Lemma sat_nil : SAT [].
+Proof. unfold sat_no_twice. cbn [sat_sets length]. split; [intros S []|split; [exact I|lia]]. Qed.
+
+(* phase 2: a computer of the ideal flavour on the session phase 1 left behind *)
+Lemma ideal_session in_all fuel s :
+  length in_all = n -> pr_core_spec F (id_single in_all) -> left_over thr e F n s ->
+  wp (since s SAT) (since s SAT) (since s SAT)
+     (id_maximal_allowed oracle fuel e F in_all) (fun _ t => since s SAT t) s.
+Proof.
+  intros Hlen Hcore (C & selv & Bs & HC & (Hfresh & Hselpos & Hargs) & Hcls & Hsb).
+  unfold id_maximal_allowed, new_cc_computer, new_computer.
+  rewrite (compact_length F n HF), wp_bind, wp_bind, wp_n_vars, wp_ret.
+  set (nv := session_n_vars (sess s)). set (C0 := cls s).
+  assert (Hb0 : bounded C0 nv) by (now apply nvars_fresh).
+  assert (Hsel_le : selv <= nv).
+  { specialize (Hb0 [zlit selv] (zlit selv)). rewrite lit_var_zlit in Hb0. apply Hb0; [|now left].
+    unfold C0. rewrite Hcls. apply in_or_app. right. now left. }
+  assert (Hs0 : forall v : val, vmodels v C0 = true -> base (ext_of e n v)).
+  { intros v Hv. unfold C0 in Hv. rewrite Hcls, !vmodels_app in Hv.
+    apply andb_prop in Hv. destruct Hv as [Hv _]. apply andb_prop in Hv. destruct Hv as [Hv _].
+    exact (all_sound e thr F n Hthr HF C v HC Hv). }
+  assert (Hc0 : forall S, base S -> exists v : val, vmodels v C0 = true /\
+                  forall a, a < n -> (v (arg_var e a) = true <-> In a S)).
+  { intros S HS. destruct (all_complete e thr F n Hthr HF C S HC HS) as [v [Hv Hvs]].
+    exists (upd v selv true). split.
+    - unfold C0. rewrite Hcls, !vmodels_app. apply andb_true_intro. split; [apply andb_true_intro; split|].
+      + rewrite (vmodels_upd v selv true C (selv - 1) Hfresh); [exact Hv|lia].
+      + apply vmodels_map. intros B _. apply (bclause_sel e n selv Hselpos). apply upd_same.
+      + apply vmodels_single. rewrite vsat_single, (vtrue_zlit _ _ Hselpos). apply upd_same.
+    - intros a Ha. rewrite upd_other; [now apply Hvs|]. specialize (Hargs a Ha). lia. }
+  assert (Hg : cand e F (alw in_all) (gr0 F)).
+  { split; [apply (co_base e F Hpe), Hgrco|]. intros a Ha.
+    assert (In a (id_single in_all)).
+    { apply Hcore. split; [exact (co_incl F _ Hgrco a Ha)|]. intros P HP. now apply (g0_below F n HF Hgr P). }
+    now apply (in_id_single thr Hthr n in_all a Hlen) in H. }
+  assert (Hsp : 0 < 1 + nv) by lia.
+  assert (Hna : no_answer [(nsess s, ENVars nv)]) by (apply no_answer_cons; [discriminate|apply no_answer_nil]).
+  assert (Hfin : forall t, lfacts e F n (alw in_all) (rlog (st_nvars s)) t -> since s SAT t).
+  { intros t Ht. rewrite rlog_nvars in Ht.
+    exact (lfacts_sat e F n (alw in_all) (rlog s) [(nsess s, ENVars nv)] t Hna Ht). }
+  eapply (wp_conseq _ (lfacts e F n (alw in_all) (rlog (st_nvars s))) (lfacts e F n (alw in_all) (rlog (st_nvars s)))
+            (lfacts e F n (alw in_all) (rlog (st_nvars s)))); [exact Hfin|exact Hfin|exact Hfin|].
+  eapply wp_mono; [intros a t Ht; exact (Hfin t Ht)|].
+  apply (compute_maximal_l oracle Hvalid e F n HF C0 (1 + nv) Hs0 Hc0
+           ltac:(replace (1 + nv - 1) with nv by lia; exact Hb0) Hsp
+           ltac:(intros a Ha; specialize (Hargs a Ha); lia)
+           (FIdeal (id_forbidden e in_all)) (alw in_all) (fl_ok_ideal thr Hthr e n in_all Hlen) Hg
+           (rlog (st_nvars s)) fuel).
+  apply linv_init; [reflexivity|apply cls_nvars].
+Qed.
+
+(* phase 1: the enumeration of the preferred extensions; functional facts from MaxExtIdeal,
+   log facts from the invariant *)
+Lemma enum_session fuel s : cls s = [] -> sess_bounded s ->
+  wp (since s PRF) (since s PRF) (since s PRF)
+     (id_in_all oracle thr fuel e F (length g0))
+     (fun r t => (in_all_post F n r /\ left_over thr e F n t) /\ since s PRF t) s.
+Proof.
+  intros Hc Hsb.
+  pose proof (id_in_all_spec oracle thr Hthr Hvalid e F n HF Hpe Hgr fuel True
+                (fun _ => True) (fun _ => True)
+                (fun r t => in_all_post F n r /\ left_over thr e F n t) s Hc Hsb (or_intror I)
+                (fun _ _ => I) (fun _ _ _ => I) (fun r t H1 H2 _ => conj H1 H2)) as W1.
+  assert (W2 : wp (since s PRF) (since s PRF) (since s PRF)
+                  (id_in_all oracle thr fuel e F (length g0)) (fun _ t => since s PRF t) s).
+  { unfold id_in_all. cbv zeta. rewrite (compact_length F n HF).
+    apply (pref_session thr Hthr e F n HF Hpe _
+             (fun k => id_enum_loop oracle fuel n (length g0) k (repeat true n) 0 0)); [exact Hc|exact Hsb|].
+    intros C selv L0 Hs0 Hc0 Hfr Hsp Hargs k s2 Hi.
+    exact (id_enum_loop_l oracle Hvalid e F n HF C selv Hs0 Hc0 Hfr Hsp Hargs FPref
+             (fun _ => true) (fl_ok_pref e n) Hgr0 L0 fuel n (length g0) k _ _ _ s2 Hi). }
+  pose proof (wp_conj _ _ _ _ _ _ _ _ _ _ _ W1 W2) as W.
+  eapply wp_conseq; [| | |exact W]; cbv beta; tauto.
+Qed.
+
+Lemma id2_phase1 s t : since (st_new s) PRF t -> since s ID2 t.
+Proof.
+  intros H. apply (prf_new e F n) in H. destruct H as (new & Hl & Hf).
+  exists new. split; [exact Hl|]. exists new, []. split; [reflexivity|]. split; [exact Hf|apply sat_nil].
+Qed.
+Lemma id2_phase2 s s1 t : since (st_new s) PRF s1 -> since s1 SAT t -> since s ID2 t.
+Proof.
+  intros H1 (new2 & Hl2 & Hf2). apply (prf_new e F n) in H1. destruct H1 as (new1 & Hl1 & Hf1).
+  exists (new2 ++ new1). split; [rewrite Hl2, Hl1; apply app_assoc|].
+  exists new1, new2. split; [reflexivity|]. split; assumption.
+Qed.
+
+(* SE-ID on one component *)
+Theorem id_ext_for_cc_log fuel s :
+  match id_ext_for_cc oracle thr fuel e F s with
+  | Done _ t | Abort t | Panic t | OutOfFuel t => since s ID2 t
+  end.
+Proof.
+  unfold id_ext_for_cc. cbv zeta.
+  apply (wp_result _ (since s ID2) (since s ID2) (since s ID2) _ (fun _ t => since s ID2 t)); auto.
+  rewrite wp_bind, wp_new_solver, wp_bind.
+  eapply (wp_conseq _ (since (st_new s) PRF) (since (st_new s) PRF) (since (st_new s) PRF));
+    try (intros t; apply id2_phase1).
+  eapply wp_mono; [|exact (enum_session fuel (st_new s) (cls_new s) (sb_new s))].
+  intros [[in_all n_in_all] n_pref] s1 [[(Hlen & Hcore & _) Hleft] H1]. cbn [fst snd] in Hlen, Hcore.
+  destruct (Nat.eqb n_in_all (length g0)); [rewrite wp_ret; now apply id2_phase1|].
+  destruct (Nat.eqb n_pref 1); [rewrite wp_ret; now apply id2_phase1|].
+  eapply (wp_conseq _ (since s1 SAT) (since s1 SAT) (since s1 SAT));
+    try (intros t; apply (id2_phase2 s s1 t H1)).
+  eapply wp_mono; [intros a t; apply (id2_phase2 s s1 t H1)|].
+  exact (ideal_session in_all fuel s1 Hlen Hcore Hleft).
+Qed.
+
+(* DC-ID (and, through it, DS-ID) on one component *)
+Theorem id_cred_for_cc_log fuel la s :
+  match id_cred_for_cc oracle thr fuel e F la s with
+  | Done _ t | Abort t | Panic t | OutOfFuel t => since s ID2 t
+  end.
+Proof.
+  unfold id_cred_for_cc. cbv zeta.
+  apply (wp_result _ (since s ID2) (since s ID2) (since s ID2) _ (fun _ t => since s ID2 t)); auto.
+  rewrite wp_bind, wp_new_solver, wp_bind.
+  eapply (wp_conseq _ (since (st_new s) PRF) (since (st_new s) PRF) (since (st_new s) PRF));
+    try (intros t; apply id2_phase1).
+  eapply wp_mono; [|exact (enum_session fuel (st_new s) (cls_new s) (sb_new s))].
+  intros [[in_all n_in_all] n_pref] s1 [[(Hlen & Hcore & _) Hleft] H1]. cbn [fst snd] in Hlen, Hcore.
+  destruct (forallb _ la); [rewrite wp_ret; now apply id2_phase1|].
+  destruct (Nat.eqb n_in_all (length g0)); [rewrite wp_ret; now apply id2_phase1|].
+  destruct (Nat.eqb n_pref 1); [rewrite wp_ret; now apply id2_phase1|].
+  rewrite wp_bind.
+  eapply (wp_conseq _ (since s1 SAT) (since s1 SAT) (since s1 SAT));
+    try (intros t; apply (id2_phase2 s s1 t H1)).
+  eapply wp_mono; [|exact (ideal_session in_all fuel s1 Hlen Hcore Hleft)].
+  intros l t Ht. rewrite wp_ret. exact (id2_phase2 s s1 t H1 Ht).
+Qed.
+
+End IdealComponent.
